@@ -58,7 +58,9 @@ RULE = (
     "corruption, rows 0/2/3, URL/IPC name mismatch, version mismatch) plus random pairs; x 2 sites per method kind "
     "(all four sites: pipe unary, pipe stream, HTTP unary, HTTP /init); every pipe request additionally routed through the "
     "shared-memory side channel (ShmPipeTransport) as a zero-row pointer batch showing the declared schema / the batch's own "
-    "schema while the region holds the perturbed batch; a case is distinct by "
+    "schema while the region holds the perturbed batch; pairs of services in one process that share method and parameter "
+    "names but differ in optionality / types / defaults, each explored after one valid call per site on the other (both "
+    "orders, fresh names per order); a case is distinct by "
     "(signature, site, request bytes) and non-trivial when the signature has at least one parameter or the method raises"
 )
 PARTIAL = [
@@ -662,7 +664,7 @@ def check_case(ctx: Any, svc: Service, case: dict[str, Any]) -> None:
     invoked = len(obs["inv"]) > 0
     tags.append("impl:invoked" if invoked else "impl:refused")
     ctx.case(case, nontrivial=bool(m["params"]) or raises, tags=tags)
-    key_site = site
+    key_site = site + (":after-other-service" if case.get("before") else "")
     should_run = ok and vv and gate_pass and name_matches
 
     # ---- O: the property on the implementation -----------------------------------------------------------------
@@ -765,8 +767,14 @@ def flush_model(ctx: Any) -> None:
 # ------------------------------------------------------------------------------------------ run
 
 
+_BEFORE: list[dict[str, Any]] = []  # calls made earlier in this process on *another* service (twin explorations)
+
+
 def make_case(methods: list[dict[str, Any]], version: str | None, transport: str, method: str, req: bytes, label: str) -> dict[str, Any]:
-    return {"methods": methods, "version": version, "transport": transport, "method": method, "req_hex": req.hex(), "label": label}
+    c = {"methods": methods, "version": version, "transport": transport, "method": method, "req_hex": req.hex(), "label": label}
+    if _BEFORE:
+        c["before"] = list(_BEFORE)
+    return c
 
 
 def routed_case(base_case: dict[str, Any], pointer: str, pointer_schema: pa.Schema) -> dict[str, Any]:
@@ -807,21 +815,59 @@ def client_request(svc: Service, rng: Any, m: dict[str, Any], version: str | Non
     return buf.getvalue(), f"client:omitted{omitted}"
 
 
+def client_frame(ctx: Any, svc: Service, rng: Any, methods: list[dict[str, Any]], m: dict[str, Any], version: str | None) -> tuple[bytes, str] | None:
+    """`client_request`, reporting a refusal of the client's own validation: the kwargs are values of the declared types
+    (None only where optional), so the call is valid and must be framed."""
+    st = rng.getstate()
+    try:
+        return client_request(svc, rng, m, version)
+    except Exception as e:  # noqa: BLE001
+        rng.setstate(st)
+        kwargs = _client_kwargs(rng, m)
+        case = make_case(methods, version, "client", m["name"], b"", "client")
+        case["client_kwargs"] = [[k, sg.enc_val(v)] for k, v in kwargs.items()]
+        ctx.case(case, tags=("site:client", "pert:client"))
+        ctx.fail(case, f"C06:valid-call-refused-by-client:{type(e).__name__}",
+                 f"the client's own validation refused a valid call {kwargs!r}: {type(e).__name__}: {e}")
+        return None
+
+
+def _client_kwargs(rng: Any, m: dict[str, Any]) -> dict[str, Any]:
+    kwargs: dict[str, Any] = {}
+    for p in m["params"]:
+        if "default" in p and rng.random() < 0.6:
+            continue
+        kwargs[p["name"]] = None if (p["opt"] and rng.random() < 0.3) else gen_value(rng, p["ty"])
+    return kwargs
+
+
 def explore_signature(ctx: Any, params: list[dict[str, Any]], rng: Any, *, version: str | None, behave: Any, use_ctx: bool,
                       n_pairs: int, full: bool) -> None:
-    import copy
+    methods = methods_for(params, behave, use_ctx)
+    svc = Service(methods, version)
+    explore_service(ctx, svc, methods, rng, version=version, n_pairs=n_pairs, full=full)
 
-    methods = [
+
+def methods_for(params: list[dict[str, Any]], behave: Any, use_ctx: bool) -> list[dict[str, Any]]:
+    return [
         {"name": "m0", "kind": "unary", "ctx": use_ctx, "params": params, "behave": behave},
         {"name": "s0", "kind": "stream", "ctx": not use_ctx and bool(params), "params": params, "behave": behave},
         {"name": "other", "kind": "unary", "ctx": False, "params": [], "behave": "ok"},
     ]
-    svc = Service(methods, version)
+
+
+def explore_service(ctx: Any, svc: Service, methods: list[dict[str, Any]], rng: Any, *, version: str | None, n_pairs: int,
+                    full: bool) -> None:
+    import copy
+
     for m in methods[:2]:
         site_pairs = [("pipe", m["name"]), ("http", m["name"])]
         # client-framed valid requests (defaults omitted at random)
         for _ in range(3 if full else 2):
-            req, label = client_request(svc, rng, m, version)
+            framed = client_frame(ctx, svc, rng, methods, m, version)
+            if framed is None:
+                continue
+            req, label = framed
             for transport, meth in site_pairs:
                 check_case(ctx, svc, make_case(methods, version, transport, meth, req, label))
         base = valid_cols(rng, m)
@@ -864,6 +910,82 @@ def explore_signature(ctx: Any, params: list[dict[str, Any]], rng: Any, *, versi
                 route_variants(ctx, svc, make_case(methods, version, "pipe", meth, r3, f"pair:{l1}+{l2}"), rng, full)
 
 
+# ---- several services in one process: same method and parameter names, different contracts ----------------------------
+
+_TWIN_SEQ = [0]
+
+
+def twin_of(rng: Any, params: list[dict[str, Any]], mode: str) -> list[dict[str, Any]]:
+    """A second contract over the same parameter *names*: optionality flipped (all / some), and at random a different
+    type or default for a parameter."""
+    import copy
+
+    out = copy.deepcopy(params)
+    flips = list(range(len(out))) if mode == "all" else [i for i in range(len(out)) if rng.random() < 0.5] or [0]
+    for i in flips:
+        out[i]["opt"] = not out[i]["opt"]
+        out[i].pop("default", None)
+    for p in out:
+        r = rng.random()
+        if mode != "all" and r < 0.2:
+            p["ty"] = rng.choice(TYPES)
+            p.pop("default", None)
+        elif mode != "all" and r < 0.4:
+            if "default" in p:
+                p.pop("default")
+            else:
+                p["default"] = sg.enc_val(None) if p["opt"] else sg.enc_val(gen_value(rng, p["ty"]))
+    return out
+
+
+def fresh_names(params: list[dict[str, Any]]) -> list[dict[str, Any]]:
+    """The same signature over parameter names no earlier service of this process used (so that no state left by an
+    earlier exploration can mask or fake an interaction)."""
+    import copy
+
+    _TWIN_SEQ[0] += 1
+    out = copy.deepcopy(params)
+    for i, p in enumerate(out):
+        p["name"] = f"t{_TWIN_SEQ[0]}_{i}"
+    return out
+
+
+def prelude(ctx: Any, svc: Service, methods: list[dict[str, Any]], version: str | None) -> list[dict[str, Any]]:
+    """One valid call per site on `svc` (a null in every optional position), returned as replayable descriptors."""
+    calls = []
+    for m in methods[:2]:
+        cols = [col_of(p, None if p["opt"] else gen_value(ctx.rng, p["ty"])) for p in m["params"]]
+        req = sg.raw_request(m["name"], cols, 1, protocol_version=version)
+        for transport in ("pipe", "http"):
+            c = {"methods": methods, "version": version, "transport": transport, "method": m["name"], "req_hex": req.hex(),
+                 "label": "prelude"}
+            check_case(ctx, svc, c)
+            calls.append(c)
+    return calls
+
+
+def explore_twins(ctx: Any, rng: Any, params: list[dict[str, Any]], mode: str, *, full: bool, n_pairs: int) -> None:
+    """Two Protocols in this process sharing method names and parameter names but not the contract; each is validated
+    after the other has been (both orders, each order over fresh names)."""
+    if not params:
+        return
+    for order in (0, 1):
+        a = fresh_names(params)
+        b = twin_of(rng, a, mode)
+        first, second = (a, b) if order == 0 else (b, a)
+        m1 = methods_for(first, "ok", False)
+        m2 = methods_for(second, "ok", order == 1)
+        s1 = Service(m1, None)
+        s2 = Service(m2, None)
+        ctx.tag("twins:" + mode)
+        try:
+            _BEFORE.clear()
+            _BEFORE.extend(prelude(ctx, s1, m1, None))
+            explore_service(ctx, s2, m2, rng, version=None, n_pairs=n_pairs, full=full)
+        finally:
+            _BEFORE.clear()
+
+
 def _params_for(cols: list[dict[str, Any]], m: dict[str, Any]) -> list[dict[str, Any]]:
     return m["params"]
 
@@ -901,6 +1023,11 @@ def _run(ctx: Any) -> None:
     full = ctx.tier == "thorough" or ctx.deep
     type_identity_check(ctx)
     excs = sorted(sg.method_exceptions())
+    # several services in one process: same method and parameter names, optionality flipped; both validation orders.
+    # (first, so that a failure that needs the other service's earlier calls is among the replays that get written)
+    for params in CORPUS_SIGS:
+        if params:
+            explore_twins(ctx, rng, params, "all", full=False, n_pairs=ctx.budget(1, 10))
     # hand-written signatures first: each once plain, and with a raising method / a version
     for i, params in enumerate(CORPUS_SIGS):
         explore_signature(ctx, params, rng, version=None, behave="ok", use_ctx=i % 2 == 0, n_pairs=ctx.budget(6, 60), full=True)
@@ -913,6 +1040,10 @@ def _run(ctx: Any) -> None:
         m = gen_method(rng, "m0", "unary")
         explore_signature(ctx, m["params"], rng, version="1.2.0" if rng.random() < 0.15 else None, behave=m["behave"],
                           use_ctx=m["ctx"], n_pairs=ctx.budget(4, 30), full=full and k % 4 == 0)
+    # several services in one process (same names, different contracts), both validation orders
+    for k in range(ctx.budget(8, 120)):
+        m = gen_method(rng, "m0", "unary", nparams=rng.choice([1, 2, 2, 3, 4]))
+        explore_twins(ctx, rng, m["params"], rng.choice(["all", "some", "some"]), full=False, n_pairs=ctx.budget(1, 10))
     flush_model(ctx)
     ctx.note("sites", ["pipe_unary", "pipe_stream", "http_unary", "http_init"])
 
@@ -921,8 +1052,38 @@ def replay(ctx: Any, case: dict[str, Any]) -> None:
     if "type_identity" in case:
         type_identity_check(ctx)
         return
-    svc = Service(case["methods"], case["version"])
+    import json
+
+    built: dict[str, Service] = {}
+
+    def service(methods: Any, version: Any) -> Service:
+        k = json.dumps([methods, version], sort_keys=True)
+        if k not in built:
+            built[k] = Service(methods, version)
+        return built[k]
+
+    # every service of the scenario exists before the first call, as in the run
+    svc = service(case["methods"], case["version"])
+    for b in case.get("before", []):
+        service(b["methods"], b["version"])
     try:
+        for b in case.get("before", []):
+            sb = service(b["methods"], b["version"])
+            mb = sb.methods[b["method"]]
+            if b["transport"] == "pipe":
+                observe_pipe(sb, b["method"], bytes.fromhex(b["req_hex"]))
+            else:
+                observe_http(sb, b["method"], mb["kind"], bytes.fromhex(b["req_hex"]))
+        if "client_kwargs" in case:
+            from vgi_rpc.rpc._wire import _send_request
+
+            kwargs = {k: sg.dec_val(v) for k, v in case["client_kwargs"]}
+            ctx.case(case)
+            try:
+                _send_request(io.BytesIO(), svc.server._methods[case["method"]], kwargs, protocol_version=case["version"])
+            except Exception as e:  # noqa: BLE001
+                ctx.fail(case, f"C06:valid-call-refused-by-client:{type(e).__name__}", f"{type(e).__name__}: {e}")
+            return
         check_case(ctx, svc, case)
         flush_model(ctx)
     finally:
